@@ -125,7 +125,7 @@ def regenerate_and_build(targets=None, timeout=1500):
                 except OSError:
                     pass
             os.makedirs(os.path.dirname(gen), exist_ok=True)
-    with open(gen, "w") as fh:
+            with open(gen, "w") as fh:
                 fh.write("(* translator failed: %s *)\nFail Definition translator_failed := tt tt.\n"
                          "Definition translator_failed : False := ltac:(fail).\n" % res.translator_msg.replace("*)", "* )"))
         if not os.path.exists(os.path.join(COQ, "Makefile")):
